@@ -162,6 +162,30 @@ def make_physical(rng, g, shape):
                                 for i in range(shape[0])], axis=-2)
 
 
+def own_jac_to_boundary(bdspec, dim):
+    """d x (d-1) matrix selecting the tangent directions of face (grid axis, side), columns signed so that the
+    library's normal construction ((-t1, t0) in 2-D, t0 x t1 in 3-D) points outward for det J > 0.  Written from
+    the documented convention (assemble.py:903-907), not by calling the library."""
+    ax, side = bdspec
+    c = dim - 1 - ax                      # D index (x = last grid axis)
+    cols = [k for k in range(dim) if k != c]
+    B = np.zeros((dim, dim - 1))
+    for j, k in enumerate(cols):
+        B[k, j] = 1.0
+    # orientation: outward normal n = s * e_c with s = +1 on side 1, -1 on side 0
+    if dim == 2:
+        t = B[:, 0]
+        n = np.array([-t[1], t[0]])
+    elif dim == 3:
+        n = np.cross(B[:, 0], B[:, 1])
+    else:
+        return B
+    want = 1.0 if side == 1 else -1.0
+    if n[c] * want < 0:
+        B[:, 0] *= -1
+    return B
+
+
 def gauss_nodes(mesh, nqp):
     """own Gauss-Legendre nodes/weights on the spans of `mesh` (not pyiga.quadrature)"""
     x, w = np.polynomial.legendre.leggauss(nqp)
@@ -177,7 +201,7 @@ def gauss_nodes(mesh, nqp):
 # one (form, instance)
 # ---------------------------------------------------------------------------------------------
 
-def run_instance(mods, spec, header, forest, asmcls, seed, max_pairs, selftest_scale=None, cfg=None):
+def run_instance(mods, spec, header, forest, asmcls, seed, max_pairs, selftest_scale=None, cfg=None, hist=None):
     pyiga, bspline, geometry, assemble, vform, orc = mods
     rng = random.Random(seed)
     d, g = header['dim'], header['geo_dim']
@@ -185,10 +209,18 @@ def run_instance(mods, spec, header, forest, asmcls, seed, max_pairs, selftest_s
     bfs = header['bfuns']
     two = len(set(b['space'] for b in bfs)) > 1
     res = {'seed': seed}
-    kvs0, kvs1 = make_spaces(bspline, rng, d, two, cfg)
+    # hist: state of a HISTORY of assemblies on one space/geometry/input set that pass ONE args dict to the library
+    # (boundary forms: one assembly per side, cfg['side'])
+    reuse = hist is not None and 'args' in hist
+    if reuse:
+        kvs0, kvs1 = hist['kvs']
+    else:
+        kvs0, kvs1 = make_spaces(bspline, rng, d, two, cfg)
     boundary = None
     if header['boundary']:
         boundary = (rng.randrange(d), rng.randint(0, 1))
+        if cfg and cfg.get('side') is not None:
+            boundary = tuple(cfg['side'])
     spaces = {0: kvs0, 1: kvs1 if two else kvs0}
     nqp = max(kv.p for kv in (kvs0 + (kvs1 or ()))) + 1
     res['space'] = {'kvs0': [[kv.p] + [float(x) for x in kv.kv] for kv in kvs0],
@@ -196,7 +228,16 @@ def run_instance(mods, spec, header, forest, asmcls, seed, max_pairs, selftest_s
                     'boundary': boundary, 'nqp': nqp}
     # geometry with |det J| bounded below
     geo = None
-    for attempt in range(20):
+    if reuse:
+        geo, nurbs = hist['geo'], hist['nurbs']
+        res['orientation'] = hist.get('orientation')
+        grid = []
+        for ax, kv in enumerate(kvs0):
+            if boundary is not None and ax == boundary[0]:
+                grid.append(np.array([kv.mesh[0] if boundary[1] == 0 else kv.mesh[-1]]))
+            else:
+                grid.append(gauss_nodes(kv.mesh, nqp)[0])
+    for attempt in range(0 if reuse else 20):
         nurbs = rng.random() < 0.4
         orient = (cfg or {}).get('orient') or (-1 if rng.random() < 0.35 else 1)
         if cfg and cfg.get('geo') == 'identity' and g == d:
@@ -211,7 +252,11 @@ def run_instance(mods, spec, header, forest, asmcls, seed, max_pairs, selftest_s
                 grid.append(np.array([kv.mesh[0] if boundary[1] == 0 else kv.mesh[-1]]))
             else:
                 grid.append(gauss_nodes(kv.mesh, nqp)[0])
-        J = cand.grid_jacobian(tuple(grid))
+        vgrid = grid
+        if hist is not None:
+            # a history visits several faces: validate on the Gauss nodes and both end points of every axis
+            vgrid = [np.concatenate([[kv.mesh[0]], gauss_nodes(kv.mesh, nqp)[0], [kv.mesh[-1]]]) for kv in kvs0]
+        J = cand.grid_jacobian(tuple(vgrid))
         if g == d:
             det = np.linalg.det(J)
             if np.abs(det).min() > 0.2 and (det.min() > 0) == (det.max() > 0):
@@ -227,9 +272,10 @@ def run_instance(mods, spec, header, forest, asmcls, seed, max_pairs, selftest_s
         res['status'] = 'NoGeometry'
         return res
     res['geo'] = 'nurbs' if nurbs else 'bspline'
-    args = {'geo': geo}
+    args = hist['args'] if reuse else {'geo': geo}
     fields = {}
-    for inp in header['inputs']:
+    params = hist['params'] if reuse else {}
+    for inp in ([] if reuse else header['inputs']):
         if inp['name'] == 'geo':
             continue
         shp = tuple(inp['shape'])
@@ -238,8 +284,7 @@ def run_instance(mods, spec, header, forest, asmcls, seed, max_pairs, selftest_s
         else:
             f = make_field(bspline, rng, kvs0, shp)
         args[inp['name']] = f
-    params = {}
-    for par in header['params']:
+    for par in ([] if reuse else header['params']):
         if par['name'] == 'Jac_to_boundary':
             continue
         shp = tuple(par['shape'])
@@ -251,8 +296,17 @@ def run_instance(mods, spec, header, forest, asmcls, seed, max_pairs, selftest_s
     # ---- implementation --------------------------------------------------------------------
     t0 = time.time()
     try:
+        if hist is not None and not reuse:
+            hist.update(args=args, params=params, kvs=(kvs0, kvs1), geo=geo, nurbs=nurbs, orientation=res.get('orientation'))
         if not two:
-            asm = assemble.instantiate_assembler(asmcls, kvs0, dict(args), None, boundary)
+            # a history hands the SAME dict object to every call, as a loop over boundary conditions does
+            asm = assemble.instantiate_assembler(asmcls, kvs0, args if hist is not None else dict(args), None, boundary)
+            if hist is not None:
+                res['history_step'] = hist['step'] = hist.get('step', 0) + 1
+                hist.setdefault('sides', []).append(list(boundary) if boundary else None)
+                res['history_sides'] = list(hist['sides'])
+                fresh_args = {k: v for k, v in args.items() if k != 'Jac_to_boundary'}
+                asm_fresh = assemble.instantiate_assembler(asmcls, kvs0, fresh_args, None, boundary)
         else:
             # instantiate_assembler only learns the number of spaces from a VForm (assemble.py:929);
             # for an assembler CLASS with two spaces do what it does for a VForm (assemble.py:939-955)
@@ -268,8 +322,9 @@ def run_instance(mods, spec, header, forest, asmcls, seed, max_pairs, selftest_s
         res['status'] = 'InstantiateFail:' + errclass(e)
         res['msg'] = (str(e)[:300] + ' | ' + traceback.format_exc().strip().splitlines()[-3].strip())[:500]
         return res
+    params = dict(params)
     if boundary is not None and any(p['name'] == 'Jac_to_boundary' for p in header['params']):
-        params['Jac_to_boundary'] = assemble._Jac_to_boundary_matrix(boundary, d)
+        params['Jac_to_boundary'] = own_jac_to_boundary(boundary, d)
     # ndofs per grid axis (boundary axis: 1)
     nd = {}
     for sp in (0, 1):
@@ -385,6 +440,19 @@ def run_instance(mods, spec, header, forest, asmcls, seed, max_pairs, selftest_s
         res['status'] = 'AssembleFail:' + errclass(e)
         res['msg'] = (str(e)[:300] + ' | ' + traceback.format_exc().strip().splitlines()[-3].strip())[:500]
         return res
+    # history: the assembler built from the shared (re-used) args dict must give what a fresh dict gives
+    if hist is not None and not two:
+        try:
+            if arity == 2:
+                fr = (np.asarray(asm_fresh.multi_blocks(idx)) if vec else np.asarray(asm_fresh.multi_entries(idx))).reshape(P, -1)
+            else:
+                fr = np.asarray(asm_fresh.assemble_vector()).reshape(P, -1)
+            badq = np.nonzero(~((fr == impl) | (np.isnan(fr) & np.isnan(impl))).all(axis=1))[0]
+            for q in badq[:2]:
+                res.setdefault('inconsistent', []).append(['shared-args-dict-vs-fresh-dict', 'step %d, side %s' % (hist.get('step', 0), list(boundary) if boundary else None),
+                                                           int(pi[q]), [float(x) for x in impl[q][:3]], [float(x) for x in fr[q][:3]]])
+        except Exception as e:
+            res.setdefault('inconsistent', []).append(['shared-args-dict-vs-fresh-dict', 'fresh assembly raised ' + errclass(e)])
     res['t_impl'] = round(time.time() - t0, 3)
     if selftest_scale:
         impl = impl * (1.0 + selftest_scale)        # harness self-test only: must be flagged below
@@ -408,6 +476,20 @@ def run_instance(mods, spec, header, forest, asmcls, seed, max_pairs, selftest_s
                 per_axis.append(orc.support_mask(kv.kv, kv.p, I, grid[ax]))
         masks[bf['name']] = per_axis
     sums = orc.gauss_sums(comps, P, N, masks)
+    # second oracle: the SOURCE semantics of the form's code by jet arithmetic (harness/props/c01_shadow.py)
+    sh_sums = None
+    try:
+        from harness.props import c01_shadow as shadow
+        hd = dict(header)
+        shv = shadow.evaluate(spec['code'], hd, data, lambda n_, D_: np.asarray(o.bf_par(n_, tuple(D_)), dtype=np.float64))
+        sh_sums = orc.gauss_sums([orc.VM(v) for v in shv], P, N, masks)
+        if len(sh_sums) != len(sums):
+            sh_sums = None
+            res['shadow'] = 'component count differs'
+        else:
+            res['shadow'] = 'ok'
+    except Exception as e:
+        res['shadow'] = 'unsupported: %s: %s' % (type(e).__name__, str(e)[:120])
     res['t_oracle'] = round(time.time() - t0, 3)
     if len(sums) != impl.shape[1]:
         res['status'] = 'ComponentCount'
@@ -444,6 +526,18 @@ def run_instance(mods, spec, header, forest, asmcls, seed, max_pairs, selftest_s
             else:
                 st['nonlinear'] += 1
                 st['compared_local'] += 1
+            if sh_sums is not None:
+                sl, sm = sh_sums[c][1][q], sh_sums[c][2][q]
+                if np.isfinite(sl) and np.isfinite(sm):
+                    st['compared_source'] = st.get('compared_source', 0) + 1
+                    tol2 = orc.REL * (mag[q] + sm) + 1e-300
+                    if abs(sl - ref) > tol2:
+                        st['nfails_source'] = st.get('nfails_source', 0) + 1
+                        if len(st['fails']) < 5:
+                            st['fails'].append({'kind': 'source-semantics', 'index': who, 'comp': c, 'impl': float(iv[q]), 'oracle': float(sl),
+                                                'tree_oracle': float(ref), 'sum_abs_terms': float(mag[q]), 'bound': float(tol2), 'linear': bool(linear)})
+                        else:
+                            st['fails'].append(None)
             err = abs(iv[q] - ref)
             ratio = float(err / tol) if np.isfinite(err) else float('inf')
             if not np.isfinite(iv[q]):
@@ -543,9 +637,22 @@ def run_forms(payload):
             res['t_build'] = round(time.time() - t0, 2)
             inst = []
             todo_inst = [(seed, None) for seed in spec.get('seeds', [])] + [(c['seed'], c) for c in spec.get('configs', [])]
-            for seed, cfg in todo_inst:
+            if header['boundary']:
+                # a HISTORY per instance: one assembly per side (random order), all through one args dict
+                exp_inst = []
+                for seed, cfg in todo_inst:
+                    hr = random.Random(seed + 17)
+                    sides = [(ax, sd) for ax in range(header['dim']) for sd in (0, 1)]
+                    hr.shuffle(sides)
+                    h = {}
+                    for side in sides[:payload.get('history_len', 4)]:
+                        exp_inst.append((seed, dict(cfg or {}, side=list(side)), h))
+                todo_inst3 = exp_inst
+            else:
+                todo_inst3 = [(seed, cfg, None) for seed, cfg in todo_inst]
+            for seed, cfg, hist in todo_inst3:
                 try:
-                    r = run_instance(mods, spec, header, forest, asmcls, seed, payload.get('max_pairs', 400), payload.get('selftest_scale'), cfg)
+                    r = run_instance(mods, spec, header, forest, asmcls, seed, payload.get('max_pairs', 400), payload.get('selftest_scale'), cfg, hist)
                     if cfg:
                         r['cfg'] = cfg
                 except Exception as e:
